@@ -153,7 +153,7 @@ Proof. vm_compute. repeat split; reflexivity. Qed.
 
 (* the decoder reads the parameters through the default-applying getters *)
 Lemma C_getters :
-  lookup_s "extractDenseNodes" GenPbfCode.block_getters
+  lookup_s "scanDenseNodes" GenPbfCode.block_getters
     = Some ["GetDateGranularity"; "GetGranularity"; "GetLatOffset"; "GetLonOffset"; "GetS"; "GetStringtable"]
   /\ lookup_s "scanWays" GenPbfCode.block_getters
     = Some ["GetDateGranularity"; "GetGranularity"; "GetLatOffset"; "GetLonOffset"; "GetS"; "GetStringtable"]
